@@ -23,7 +23,10 @@ def _valid(s: str) -> bool:
     return s.isidentifier() and not keyword.iskeyword(s)
 
 
-def spec_pyident_valid(prefix: str = "field_", skip: bool = False) -> dict:
+def spec_pyident_valid(prefix: str = "field_", skip: bool = False, domain: str = "sigma") -> dict:
+    """domain="letters": the claim is restricted to names over [A-Za-z_] that contain a letter — the names for which a
+    degenerate field_prefix ('' or one that does not start an identifier by itself) is still expected to work, because
+    they only need the reserved-word / leading-underscore repair, not the prefix."""
     from openapi_python_client import utils
 
     def real(t):
@@ -33,6 +36,19 @@ def spec_pyident_valid(prefix: str = "field_", skip: bool = False) -> dict:
         r = str(utils.PythonIdentifier(t, prefix, skip_snake_case=skip))
         return (not _valid(r), r)
 
+    classes = dict(CLASSES)
+    glue = sorted({kw[len(prefix):] for kw in keyword.kwlist if prefix and kw.startswith(prefix) and len(kw) > len(prefix) and kw[len(prefix):].islower()})
+
+    def glue_sym(inputs):
+        v = inputs[0]
+        stripped = core.lower(core.remove_chars(v, [v.ch[i] == core.C("_") for i in range(v.cap)]))
+        return core.in_words(stripped, glue)
+
+    def glue_conc(t):
+        return t.replace("_", "").lower() in glue
+
+    # prefix + remainder spells a keyword (fix_reserved_words runs before the prefix is added): e.g. 'f' + '_rom'
+    classes["prefix_glues_keyword"] = (glue_sym, glue_conc)
     return {
         "fn": utils.PythonIdentifier,
         "make_args": lambda i: ([i[0], prefix], {"skip_snake_case": skip}),
@@ -40,9 +56,17 @@ def spec_pyident_valid(prefix: str = "field_", skip: bool = False) -> dict:
         "terms": lambda enc: [enc.result],
         "violation": lambda enc: z3.Or(z3.Not(core.isidentifier(core.as_bstr(enc.result))), core.iskeyword(core.as_bstr(enc.result))),
         "concrete_violation": cv,
-        "classes": CLASSES,
-        "what": f"PythonIdentifier(v, {prefix!r}, skip_snake_case={skip}) is a non-keyword identifier",
+        "classes": classes,
+        "what": f"PythonIdentifier(v, {prefix!r}, skip_snake_case={skip}) is a non-keyword identifier" + (" (names over [A-Za-z_] containing a letter)" if domain == "letters" else ""),
+        **({"extra": _letters_domain, "test_extra": ["_class", "_if", "__import", "_or", "for", "_x", "a_b", "Ab", "_A"], "domain_filter": lambda t: all(c.isascii() and (c.isalpha() or c == "_") for c in t) and any(c.isalpha() for c in t)} if domain == "letters" else {}),
     }
+
+
+def _letters_domain(enc):
+    p_ok = core.pred(lambda c: c.isascii() and (c.isalpha() or c == "_"))
+    p_letter = core.pred(lambda c: c.isascii() and c.isalpha())
+    v = enc.inputs[0]
+    return [core.all_char(v, p_ok), core.any_char(v, p_letter)]
 
 
 def spec_classname_valid(prefix: str = "field_") -> dict:
@@ -84,6 +108,9 @@ def obligations(tier: str) -> list[Ob]:
     for prefix in (["field_"] if q else ["field_", "f", "tag"]):
         obs += spec_obs(M, "pyident_valid", f"pyident_valid[{prefix}]", {"prefix": prefix, "skip": False}, "pyident_valid", list(range(0, (4 if q else 5) + 1)), 4, to, must_upto=4)
         obs += spec_obs(M, "classname_valid", f"classname_valid[{prefix}]", {"prefix": prefix}, "classname_valid", list(range(0, (2 if q else 3) + 1)), 2, to, must_upto=2)
+    # other field_prefix values: the degenerate empty prefix and a prefix that can glue onto a keyword remainder
+    for prefix in ["", "f", "el"]:
+        obs += spec_obs(M, "pyident_valid", f"pyident_valid_letters[{prefix!r}]", {"prefix": prefix, "skip": False, "domain": "letters"}, "pyident_valid_letters", list(range(1, (5 if q else 7) + 1)), 99, to)
     from ..e2 import harness_ob
 
     obs.append(
